@@ -82,7 +82,7 @@ class C01(Check):
         return 1 if self.tier == "quick" else 2
 
     def max_states(self):
-        return 40000
+        return 60000
 
     def specs(self):
         allspecs = worlds.rich_specs()
@@ -293,6 +293,19 @@ class C01(Check):
                         moved.add(inv[(p1, op_)])
                     if op_.startswith("ins") and simreads.shift_indel(base, w.col(p1 - 1), op_, sh)[0] != w.col(p1 - 1):
                         moved_ins.add(inv[(p1, op_)])
+        # insertions planted inside a repeat (an equivalent placement exists), whatever placement the reads use
+        repeat_ins = set()
+        if len(comps) >= 3 and rl >= 250 and not sh:
+            inv0 = {(v_[3] + 1, v_[4]): k for k, v_ in gene.mutations.items()}
+            base0 = w.plus_copy(w.seq)
+            for kind_, allele_ in comps:
+                if allele_ is None or kind_ in ("vars", "xvars"):
+                    continue
+                for p1, op_ in simreads.db_variants(w, allele_):
+                    if op_.startswith("ins") and w.col(p1 - 1) is not None and any(
+                            simreads.shift_indel(base0, w.col(p1 - 1), op_, dr)[0] != w.col(p1 - 1) for dr in (-1, 1)):
+                        repeat_ins.add(inv0[(p1, op_)])
+        only_repeat_ins = bool(repeat_ins)
         only_moved = bool(moved)
         only_moved_ins = bool(moved_ins)
         for s in sols:
@@ -314,6 +327,8 @@ class C01(Check):
                     only_moved = False
                 if not set(extra + lost) <= moved_ins:
                     only_moved_ins = False
+                if not set(extra + lost) <= repeat_ins:
+                    only_repeat_ins = False
                 kinds = {("indel" if m[1][:3] in ("ins", "del") else "snv") for m in extra + lost}
                 v.append((f"e2e/variants/{'+'.join(sorted(kinds))}", f"planted {comps} (rl {rl}, depth {dp}, shift {sh}, {build}): solution {s.get_minor_diplotype()} adds {extra} loses {lost}"))
         if not found:
@@ -323,6 +338,10 @@ class C01(Check):
             # known finding D16: a shifted insertion within three bases of the end of the RefSeq-mapped part,
             # realigned against aldy's N-padded reference (with the true genome as reference the call is right)
             v = [("e2e/shifted-insertion-at-refseq-end", "; ".join(m for _, m in v)[:600])]
+        elif v and only_repeat_ins:
+            # known finding D15b: as D15 but with the database placement (three copies, 250-base reads, insertion in a
+            # repeat); right with the true genome as reference
+            v = [("e2e/repeat-insertion-long-reads", "; ".join(m for _, m in v)[:600])]
         elif v and only_moved:
             # known finding D11: keyed to exactly this situation, see known_findings.json
             v = [("e2e/shifted-repeat-deletion", "; ".join(m for _, m in v)[:600])]
